@@ -136,7 +136,18 @@ func c02(tier string) int {
 	// Same key NAME as log A, different key material (so a different key hash).
 	k1b := uni.NewKey(u.K1.Name, ev.Seed()+7919)
 	le := wh.LogCfg{Origin: "verif.example/log-e", Key: k1b}
+	// Two individually valid keys with the same name AND the same 32-bit key
+	// hash (a birthday pair, from seeded change C02-s12): name+hash is what a
+	// signature line carries, so anything that identifies a key by it - a
+	// verifier shared between configuration entries, a table keyed by it -
+	// lets one log's key sign for the other.
+	kca := uni.KeyFromStrings("PRIVATE+KEY+shard.example.org/log+adc3429b+AQQgMEEeQig6Gf/ybpSX+eOoiEU8RUQFPyBWmUoSFR3B", "shard.example.org/log+adc3429b+AV5NRznS/fO0hsaPKwHY1dqKPkcy7dULZ4IoMd3NCbmN")
+	kcb := uni.KeyFromStrings("PRIVATE+KEY+shard.example.org/log+adc3429b+ASYhVamJD1afzEJ+x5MjteJPXWkuX6HPRD4HkSfWgNbd", "shard.example.org/log+adc3429b+ASCVDCI68JupgCmpFgr8fD5lr5Uge8IwDjYCvyFDYvCb")
+	if wh.KeyID(kca.Verif) != wh.KeyID(kcb.Verif) || kca.VKey == kcb.VKey {
+		ev.Internal("C02: the colliding key pair does not collide")
+	}
 	configs := map[string][]wh.LogCfg{
+		"2 logs, same key name and same key hash, different keys": {{Origin: "shard.example.org/log - 1", Key: kca}, {Origin: "shard.example.org/log - 2", Key: kcb}},
 		"1 log":                                 {la},
 		"2 logs distinct keys":                  {la, lb},
 		"3 logs, two sharing one key":           {la, lc, lb},
@@ -150,7 +161,7 @@ func c02(tier string) int {
 		// not per origin.
 		"2 IDs, one origin, different keys": {{Origin: la.Origin, Key: u.K1, CustomID: "twin-a"}, {Origin: la.Origin, Key: u.K2, CustomID: "twin-b"}},
 	}
-	confNames := []string{"1 log", "2 logs distinct keys", "3 logs, two sharing one key", "2 logs, same key name, different keys", "log A re-keyed", "2 IDs, one origin, different keys"}
+	confNames := []string{"1 log", "2 logs distinct keys", "3 logs, two sharing one key", "2 logs, same key name, different keys", "log A re-keyed", "2 IDs, one origin, different keys", "2 logs, same key name and same key hash, different keys"}
 	subst := []byte{0x00, '\n', ' ', 0x7f, 0x80, 0xff, '+', 0xe2}
 	stores := []string{"mem"}
 	if tier == "thorough" {
@@ -158,6 +169,7 @@ func c02(tier string) int {
 	}
 	var mu sync.Mutex
 	var evals int64
+	seedFail := ""
 	judge := func(e *wh.Env, cfgName string, c c02Case, seeded bool, seedAt int) {
 		before := e.Snap()
 		out := e.Do(wh.Req{LogID: c.ID, Old: c.Old, CP: c.CP, Proof: c.Proof})
@@ -316,7 +328,7 @@ func c02(tier string) int {
 				// that is NOT configured for it (every other configured key, the
 				// second universe key and the same-name key), under that log's ID.
 				for _, t := range logs {
-					for _, k := range []uni.Key{u.K1, u.K2, k1b} {
+					for _, k := range []uni.Key{u.K1, u.K2, k1b, kca, kcb} {
 						if k.VKey == t.Key.VKey {
 							continue
 						}
@@ -369,7 +381,16 @@ func c02(tier string) int {
 						for _, l := range logs {
 							cp, meta := gen.Get(l, u.Main, part.j.seedAt, "plain")
 							if out := e.Do(wh.Req{LogID: l.ID(), CP: cp, Meta: meta}); out.Class != wh.OK {
-								ev.Internal("C02 seeding failed (%s, %s, size %d): %v", part.j.cfgName, l.Origin, part.j.seedAt, out.Err)
+								// Not fatal at once: a change that makes the witness refuse
+								// an honest checkpoint here (a verifier mixed up between
+								// logs) is the kind that also accepts a wrong one, and the
+								// cases below must still run. Without any report at the
+								// end, a failed seeding is an internal error as before.
+								mu.Lock()
+								if seedFail == "" {
+									seedFail = fmt.Sprintf("C02 seeding failed (%s, %s, size %d): %v", part.j.cfgName, l.Origin, part.j.seedAt, out.Err)
+								}
+								mu.Unlock()
 							}
 						}
 					}
@@ -409,6 +430,9 @@ func c02(tier string) int {
 	}
 	close(ch)
 	wg.Wait()
+	if seedFail != "" && run.Violations() == 0 {
+		ev.Internal("%s", seedFail)
+	}
 	run.Sample(map[string]any{"config": "3 logs, two sharing one key", "case": "plain: bit 3 of byte 57 flipped", "oracle": "if accepted or state changed: stored text must be in the set of texts the harness signed with that ID's key and its first line that ID's origin"})
 	run.Sample(map[string]any{"config": "3 logs, two sharing one key", "case": "cross-log: checkpoint of verif.example/log-a@4 submitted under the ID of verif.example/log-c (same key, other origin)"})
 	for _, k := range []string{"valid -> accepted", "bit-flip -> refused", "cross-log -> refused", "line-edit -> refused", "prefix -> refused"} {
@@ -418,7 +442,7 @@ func c02(tier string) int {
 	}
 	run.Set("evaluations", evals)
 	run.Set("exhaustive", true)
-	run.Set("rule", "for 6 configurations - five built through the repository's own AsLogMap in one process, one with hand-picked IDs (two IDs, one origin line, different keys) - (1 log; 2 logs distinct keys; 3 logs of which two share one key under different origins; 2 logs whose keys have the same name but different key material; log A under a new key) x {empty witness, every log holding a smaller checkpoint (growth), every log holding a checkpoint of the submitted size 4 and of size 0 (same-size re-submission: no consistency proof involved; seeds plain and with extension lines, without the cross-log product)} x 6 seed checkpoints (plain, extension lines, extra signature by another configured log, already cosigned, size with a leading zero, root with non-zero base64 padding bits): the complete byte-level 1-edit neighbourhood (every prefix, every single-bit flip, 8 boundary substitutions and deletion at every byte), 25 line-level / signature-block edits, and every checkpoint of every log (4 sizes x 2 shapes, incl. a log configured only elsewhere) submitted under every other configured ID and under unknown IDs (incl. spellings near a configured ID: other case, surrounding space, one character less or more), and every configured origin signed only by each key that is not its own (impostors) under its own ID. Oracle one-directional: accepted or state changed => stored text is in the set of texts the harness signed with the key configured for that ID and starts with that ID's origin; and for inputs the harness decides (crypto/ed25519 directly) carry no valid signature of that key / unsigned text / wrong origin: refused, state unchanged. distinct_nontrivial = distinct (configuration, state, mutated input)")
+	run.Set("rule", "for 7 configurations - six built through the repository's own AsLogMap in one process, one with hand-picked IDs (two IDs, one origin line, different keys) - (1 log; 2 logs distinct keys; 3 logs of which two share one key under different origins; 2 logs whose keys have the same name but different key material; 2 logs whose keys have the same name AND the same 32-bit key hash but different key material; log A under a new key) x {empty witness, every log holding a smaller checkpoint (growth), every log holding a checkpoint of the submitted size 4 and of size 0 (same-size re-submission: no consistency proof involved; seeds plain and with extension lines, without the cross-log product)} x 6 seed checkpoints (plain, extension lines, extra signature by another configured log, already cosigned, size with a leading zero, root with non-zero base64 padding bits): the complete byte-level 1-edit neighbourhood (every prefix, every single-bit flip, 8 boundary substitutions and deletion at every byte), 25 line-level / signature-block edits, and every checkpoint of every log (4 sizes x 2 shapes, incl. a log configured only elsewhere) submitted under every other configured ID and under unknown IDs (incl. spellings near a configured ID: other case, surrounding space, one character less or more), and every configured origin signed only by each key that is not its own (impostors) under its own ID. Oracle one-directional: accepted or state changed => stored text is in the set of texts the harness signed with the key configured for that ID and starts with that ID's origin; and for inputs the harness decides (crypto/ed25519 directly) carry no valid signature of that key / unsigned text / wrong origin: refused, state unchanged. distinct_nontrivial = distinct (configuration, state, mutated input)")
 	run.Assumption("Ed25519 unforgeability: the set of texts the harness signed is the ground truth for authenticity")
 	return run.Finish()
 }
